@@ -293,6 +293,12 @@ func runC01(c *Ctx) {
 		if i%5 != 0 {
 			nTok = 1 + i%4
 		}
+		if i == 7 {
+			nTok = 512 // the element list needs the 4-byte varint form from here on
+		}
+		if i == 9 {
+			nTok = 513
+		}
 		sk5 := oprfKey(oprf.SuiteRistretto255, keyseed)
 		pk5, _ := sk5.Public().MarshalBinary()
 		kid5 := sha256b(pk5)
